@@ -5,7 +5,10 @@ uv__async_io, uv__async_spin, uv__async_close is extracted from the working tree
 lean/UvModel/Generated/AsyncSeq.lean and proved equal to the order the model executes.
 Tie B: harness/c09_sched.c runs the unmodified async.c under the baton-passing serialising scheduler
 (every atomic / eventfd access is a schedule point, the eventfd is a counter); every step's
-abstract state is compared with `uvdriver async`; monitors in the harness are independent of the model."""
+abstract state is compared with `uvdriver async`; monitors in the harness are independent of the model.
+Input classes beyond the small exhaustive scopes: handles initialised with async_cb == NULL (cfg nocb=, delivery = the woken
+loop consuming the flag), bursts of sends to every one of 15..150 handles in one wake-up pass (scheduler + model), and
+real-loop runs (`realmany`, `realnull`: real eventfd/epoll, up to 20000 handles, > 1024 other ready descriptors)."""
 import re, subprocess
 from vlib import *
 
@@ -193,7 +196,7 @@ DFS_THOROUGH = [
     cfg_line(2, [0], [[0, 1], [1]], stop=1, fork=1, eintr=1),
     cfg_line(1, [0], [[0, 0], [0, 0]], nocb=[0]),
     cfg_line(2, [0], [[0, 1], [1, 0]], nocb=[0]),
-    cfg_line(3, [2], [[0, 1, 2], [2, 1, 0]], nocb=[1, 2]),
+    cfg_line(3, [2], [[0, 1], [2, 1]], nocb=[1, 2]),
     cfg_line(2, [], [[0, 1, 0], [1]], nocb=[1], sig=[(1, "l")], stop=1),
     cfg_line(2, [0], [[0, 1, 0]], nocb=[0], spin=998, cap=1, eintr=1),
 ]
